@@ -401,6 +401,12 @@ def apply_dsl(I, f, args, kwargs, node):
         a = z3.BoolVal(a) if isinstance(a, bool) else a
         b = z3.BoolVal(b) if isinstance(b, bool) else b
         return I.wrap_bool(z3.Implies(a, b))
+    if nm == 'check':
+        bt = I.bool_term(args[0])
+        bt = z3.BoolVal(bt) if isinstance(bt, bool) else bt
+        I.oblige(bt, 'check', ast.unparse(node.args[0]) if node is not None and getattr(node, 'args', None) else 'check', I.frame.fname)
+        I.assume(bt)
+        return None
     if nm == 'case_split':
         # proof hint: one path per value of the term inside the autosplit range (range membership is checked)
         saved = I.pure
